@@ -104,7 +104,9 @@ func stubLoadX509KeyPair(certFile, keyFile string) (tls.Certificate, error) {
 func stubHostWhitelist(hosts ...string) autocert.HostPolicy { return nil }
 
 //verif:stub (*golang.org/x/crypto/acme/autocert.Manager).HTTPHandler
-func stubAutocertHTTPHandler(m *autocert.Manager, fallback http.Handler) http.Handler { return fallback }
+func stubAutocertHTTPHandler(m *autocert.Manager, fallback http.Handler) http.Handler {
+	return fallback
+}
 
 var vAutocertGetCert int
 
